@@ -7,6 +7,7 @@
     of its n-th collection.  All theorems hold for every history, every instrument
     kind of the stated class, every instrument index and every clock. *)
 From Verif Require Import Lib.Base Lib.MetricsModel C08.Spec C08.Model C08.Proofs C08.Sound.
+From Verif Require C07.Spec C07.Model C08.Expo C08.ExpoBridge.
 Open Scope Z_scope.
 
 (** Counters, up-down counters and histograms (sum, count and every bucket are the
@@ -127,6 +128,40 @@ Theorem c08_checker_sound : forall cl i h dtr ctr, stream_ok cl i h dtr ctr = tr
 Proof. exact stream_ok_sound. Qed.
 Print Assumptions c08_checker_sound.
 
+(** Exponential histograms that RESCALE (any MaxSize >= 1, any MaxScale in -10..20), on C07's model
+    of the exponential aggregator: delta reader = a fresh aggregator per cycle, cumulative reader =
+    one aggregator over all cycles.  For every history of cycles and every n ([C08.Expo.ExpoClauses],
+    the clauses that [expo_ok] judges):
+      - cumulative count / sum / zero count = running totals of the delta ones, and the cumulative
+        scale never rises - no guard on the values;
+      - while the values of each sign fit into MaxSize buckets at scale -10 ([fits_at_min_scale],
+        whose failure is finding F-C07-1 of C07): count = zero + positive + negative counts for the
+        cumulative and every delta point, cumulative scale <= every delta scale, and every bin b of
+        the cumulative point holds the sum over the cycles of the delta counts of the bins that
+        shift to b (index >> (delta scale - cumulative scale)), for both signs.
+    Guard inherited from C07: [positive_index_exact] - getBin's floating-point formula returns the
+    exact bucket at positive scales (vacuous for MaxScale <= 0; C07's tested-only clause). *)
+Theorem c08_expo_rescaling : forall gb u ms mxs,
+  C07.Spec.positive_index_exact gb u mxs -> 1 <= ms -> -10 <= mxs <= 20 ->
+  forall cycles n, C08.Expo.ExpoClauses gb u ms mxs cycles n.
+Proof. exact C08.Expo.expo_streams. Qed.
+Print Assumptions c08_expo_rescaling.
+
+(** The check the correspondence run applies to the implementation's exponential points implies
+    the Prop reading of the same clauses ([ExpoRun], on arbitrary observations). *)
+Theorem c08_expo_checker_sound : forall maxsize meas obs,
+  expo_ok maxsize meas obs = true -> ExpoRun maxsize [] [] [] meas obs.
+Proof. exact expo_ok_sound. Qed.
+Print Assumptions c08_expo_checker_sound.
+
+(** The functions [expo_ok] applies to the sparse bucket lists reported by the harness are the
+    functions of the theorem above on C07's dense windows. *)
+Theorem c08_expo_sparse_dense : forall d off counts b,
+  bshift_count d b (C08.ExpoBridge.to_buckets off counts) = Z.of_N (C08.Expo.shift_count d off counts b) /\
+  bsum (C08.ExpoBridge.to_buckets off counts) = Z.of_N (C07.Spec.nsum counts).
+Proof. intros. split; [apply C08.ExpoBridge.bshift_count_dense | apply C08.ExpoBridge.bsum_dense]. Qed.
+Print Assumptions c08_expo_sparse_dense.
+
 (** ** Non-vacuity *)
 Definition ex_h : list op :=
   [ Measure 0%nat 1%N 5; Measure 0%nat 2%N 7; Register 10%N [1%nat]; Collect 0 [(10%N, 1%nat, 1%N, 100)] [];
@@ -153,3 +188,13 @@ Example ex_clock : (1 <= ex_tm 0)%N /\ monotone ex_tm.
 Proof. split; [vm_compute; discriminate|]. intros a b H. unfold ex_tm. lia. Qed.
 Example ex_unregistered : forallb (fun o => negb (registers 10%N o)) [Collect 0 [(10%N, 1%nat, 1%N, 999)] []] = true.
 Proof. reflexivity. Qed.
+
+(** 1.5, 3, 0 then -3, 100 in unit 2^-1 at MaxSize 2, MaxScale 2: the cumulative point rescales *)
+Example ex_expo_rescale :
+  let gb := fun s m => C07.Spec.exact_bin s m (-1) in
+  let cyc := [[3; 6; 0]; [-6; 200]] in
+  C07.Spec.ep_scale (C08.Expo.delta_pt gb (-1) 2 2 cyc 0) = 0 /\
+  C07.Spec.ep_scale (C08.Expo.cum_pt gb (-1) 2 2 cyc 1) = -2 /\
+  C07.Spec.ep_count (C08.Expo.cum_pt gb (-1) 2 2 cyc 1) = 5%N /\
+  C07.Spec.positive_index_exact gb (-1) 2.
+Proof. cbv zeta. split; [vm_compute; reflexivity|]. split; [vm_compute; reflexivity|]. split; [vm_compute; reflexivity|]. intros s m _ _. reflexivity. Qed.
